@@ -672,6 +672,10 @@ def run_case(desc, ctx):
     ctx.cls("container:" + str(desc.get("container", "ndarray")))
     ctx.cls("scale:%g" % float(desc.get("scale", 1.0)))
 
+    # the option is matched whatever its capitalisation ('fast', 'Fast', 'FAST' all pass the constructor's validation)
+    spelled = [strategy, strategy.capitalize(), strategy, strategy.upper()][(n + 3 * leaf + d) % 4]
+    if spelled != strategy:
+        ctx.cls("strategy_spelling:" + ("capitalised" if spelled[1:].islower() else "upper_case"))
     # ---- (1) construction under the step budget
     np.random.seed(int(desc.get("npseed", 0)))
     st = _new_build_state(n, d, strategy, early)
@@ -679,7 +683,7 @@ def run_case(desc, ctx):
     stopped = None
     try:
         try:
-            ok, tree = ctx.call("construct", KDTree, P_in, leaf, strategy, monitor="termination")
+            ok, tree = ctx.call("construct", KDTree, P_in, leaf, spelled, monitor="termination")
         except StepBudgetExceeded as e:
             stopped = str(e)
             tree = None
@@ -724,6 +728,11 @@ def run_case(desc, ctx):
     if st["steps"] >= max(1, n):
         ctx.note("builds_with_n_or_more_split_steps")
 
+    # history: the caller reuses its own buffer after the tree was built (here: the rows are reversed in place); the tree answers for the
+    # point set it was built from
+    if isinstance(P_in, np.ndarray) and P_in.flags.writeable and not np.shares_memory(P_in, P64) and n >= 2 and int(desc.get("seed", n)) % 3 == 1:
+        ctx.cls("history:caller_array_overwritten_after_the_build")
+        P_in[...] = P_in[::-1].copy()
     # ---- (2) structure
     info = _check_structure(ctx, tree, P64, tree_small)
     if not info.ok:
